@@ -1242,6 +1242,12 @@ EM('C06', 'flag-renamed', [(SIM, "        start_ok = False\n", "        init_ok 
                             (SIM, "            if start_ok and self.persistent_dict is not None:", "            if init_ok and self.persistent_dict is not None:")])
 
 # ----------------------------------------------------------------------------- C07
+V('C07', 'f13-reverted', CRON, "                if step > 1 or sleeptime < 0 or sleeptime > SEC_PER_HOUR + _TT_ERROR:",
+  "                if step > 1 or sleeptime < 0:", 'R07.11')
+V('C07', 'jump-guard-only-at-step-1', CRON, "                if step > 1 or sleeptime < 0 or sleeptime > SEC_PER_HOUR + _TT_ERROR:",
+  "                if step > 1 or sleeptime < 0 or (step == 1 and sleeptime > SEC_PER_DAY):", 'R07.11')
+E('C07', 'jump-guard-negated-le', CRON, "                if step > 1 or sleeptime < 0 or sleeptime > SEC_PER_HOUR + _TT_ERROR:",
+  "                if step > 1 or sleeptime < 0 or not sleeptime <= SEC_PER_HOUR + _TT_ERROR:")
 V('C07', 'f5-reverted', CRON, "for blk in set().union(*self._alarms.values()):  # all blocks", "for blk in set.union(*self._alarms.values()):  # all blocks", 'R07.1')
 V('C07', 'reset-keeps-index', CRON, """                    blk.recalc(nowdt)
                 index = None
